@@ -509,7 +509,9 @@ class Enc:
         eq, lb = V.index("="), V.index("{")
         atoms = [V.index(a) for a in DEFAULT_ATOMS]
         enders = [V.index(a) for a in (",", ";", ")")]
-        comment_kinds = [s for s, segs in enumerate(self.SEPS) if any(x != "W" for x in segs)]
+        # a comment GLUED to the default atom is lexed as part of the verbatim default text (`5/*c*/`); a comment that
+        # follows the atom after whitespace is an ordinary comment between two tokens and stays inside the domain
+        comment_kinds = [s for s, segs in enumerate(self.SEPS) if segs and segs[0] != "W"]
         for k in range(N):
             if k + 2 < N:
                 rhs = [Or_([tok[k + 1] == a for a in atoms]), Or_([tok[k + 2] == a for a in enders]), length > k + 2]
